@@ -770,19 +770,23 @@ Definition oracle_C13_turns (sc : scase) (log : list ev) : bool :=
   | [] => true
   end.
 
-(* Two further rules of the property, as a second scan (evaluated on every log next to [copy_mon];
-   not part of [oracle_C13_model]):
+(* Three further rules of the property, as a second scan (evaluated on every log next to [copy_mon]):
    (A) end-of-stream is what CopyDone means: the first result a handler sees in the turn of a message
        other than CopyDone, Flush and Sync is not io.EOF (a Terminate, a Query, ... inside a COPY is an error);
    (B) between a CopyInResponse and the next message the server writes, the turn of a message exceeding
-       the size limit is never silent: the handler's Read reports it (or the command loop answers it). *)
+       the size limit is never silent: the handler's Read reports it (or the command loop answers it);
+   (C) nothing is dropped on the way to a reading handler: between the start of a statement function and any
+       result it sees, no client message other than Flush/Sync passed without a reply and without a result
+       (a CopyData the reader skipped, whatever its payload spells, is a violation). *)
 Record cmon2 := { n_rem : list frame; n_cur : option frame; n_live : bool; n_op : bool;
-                  n_copy : bool; n_silent : bool; n_ok : bool }.
+                  n_copy : bool; n_silent : bool; n_gap : bool; n_ok : bool }.
 Definition eof_exempt (c : option frame) : bool :=
   match c with
   | Some (FMsg t _) => Byte.eqb t x63 || Byte.eqb t x48 || Byte.eqb t x53
   | _ => true
   end.
+Definition hs_frame (c : option frame) : bool :=
+  match c with Some (FMsg t _) => Byte.eqb t x48 || Byte.eqb t x53 | _ => false end.
 Definition is_over (c : option frame) : bool :=
   match c with Some (FOver _ _ None) | Some (FBad _ _) => true | _ => false end.
 Definition mon2_step (m : cmon2) (e : ev) : cmon2 :=
@@ -790,21 +794,25 @@ Definition mon2_step (m : cmon2) (e : ev) : cmon2 :=
   match e with
   | Consume =>
       let ok := negb (n_live m && n_copy m && n_silent m && is_over (n_cur m)) in
+      let gap := n_gap m || (n_live m && n_silent m && negb (hs_frame (n_cur m))) in
       match n_rem m with
-      | f :: r => {| n_rem := r; n_cur := Some f; n_live := true; n_op := false; n_copy := n_copy m; n_silent := true; n_ok := ok |}
-      | [] => {| n_rem := []; n_cur := None; n_live := false; n_op := false; n_copy := n_copy m; n_silent := true; n_ok := ok |}
+      | f :: r => {| n_rem := r; n_cur := Some f; n_live := true; n_op := false; n_copy := n_copy m; n_silent := true; n_gap := gap; n_ok := ok |}
+      | [] => {| n_rem := []; n_cur := None; n_live := false; n_op := false; n_copy := n_copy m; n_silent := true; n_gap := gap; n_ok := ok |}
       end
   | Out b =>
       {| n_rem := n_rem m; n_cur := n_cur m; n_live := n_live m; n_op := n_op m;
-         n_copy := match b with BCopyIn _ _ => true | _ => false end; n_silent := false; n_ok := true |}
+         n_copy := match b with BCopyIn _ _ => true | _ => false end; n_silent := false; n_gap := n_gap m; n_ok := true |}
+  | CbExec _ _ =>
+      {| n_rem := n_rem m; n_cur := n_cur m; n_live := n_live m; n_op := n_op m;
+         n_copy := n_copy m; n_silent := n_silent m; n_gap := false; n_ok := true |}
   | CbOp r =>
-      let bad := n_live m && negb (n_op m) && negb (eof_exempt (n_cur m)) && (match r with OEof => true | _ => false end) in
-      {| n_rem := n_rem m; n_cur := n_cur m; n_live := n_live m; n_op := true; n_copy := n_copy m; n_silent := false; n_ok := negb bad |}
+      let bad := (n_live m && negb (n_op m) && negb (eof_exempt (n_cur m)) && (match r with OEof => true | _ => false end)) || n_gap m in
+      {| n_rem := n_rem m; n_cur := n_cur m; n_live := n_live m; n_op := true; n_copy := n_copy m; n_silent := false; n_gap := n_gap m; n_ok := negb bad |}
   | _ => m
   end.
 Definition oracle_C13_strict (sc : scase) (log : list ev) : bool :=
   n_ok (fold_left mon2_step log
-          {| n_rem := client_frames sc; n_cur := None; n_live := false; n_op := false; n_copy := false; n_silent := true; n_ok := true |}).
+          {| n_rem := client_frames sc; n_cur := None; n_live := false; n_op := false; n_copy := false; n_silent := true; n_gap := false; n_ok := true |}).
 
 (* ---------- C19: session lifecycle ---------- *)
 Fixpoint mw_seq (l : list ev) (i : Z) : bool :=
